@@ -3,6 +3,7 @@ from checks.common import Ctx
 from sa.report import Check
 from sa.rules import serial_rules as R
 from sa.rules import schematype as ST
+from sa.rules import flow_rules as FL
 
 
 def main(tier):
@@ -25,4 +26,5 @@ def main(tier):
     chk.run("R-LOCENCODE", R.locencode, r, floor=1)
     chk.run("R-DRIVERS", R.drivers, r, floor=6)
     chk.run("R-DRIVERFLAGS", R.driverflags, r, floor=4)
+    chk.run("R-ASSERTEFFECT", FL.asserteffect, r, floor=100)
     return chk.finish()
